@@ -648,6 +648,39 @@ theorem tracked_row_consistent {V : Type} [DecidableEq V] (v0 : V) (rounds : Lis
     obtain ⟨a, b, c⟩ := trialRound_consistent st r (by simp [h1, h2]) (by rw [h3, h2])
     exact ih _ c b a
 
+/-- `run_sim` (ast, Gen/UpdaterC02.lean) decides the re-solve on a reference point that follows EVERY registered target (no `attrs`
+filter on it, nor on the 'model' point that drives the row / parameter updates) -/
+theorem resolve_reference_point_unfiltered :
+    UpdaterC02.resolveRefPoint = "graph" ∧ UpdaterC02.resolveRefPointFilter = none ∧ UpdaterC02.modelRefPointFilter = none := by
+  decide
+
+/-- **a step is reported only at a fixpoint of ALL tracked targets**: with an unfiltered reference point, "no re-solve" means that no
+tracked target (status, setting, …) differs from its value at the last solve — so the reported status AND setting are the ones the
+reported flows / heads were solved for -/
+theorem no_resolve_means_fixpoint {V : Type} [DecidableEq V] (targets : List (String × Tracked V))
+    (hinv : ∀ t ∈ targets, t.2.changed = decide (t.2.cur ≠ t.2.prev)) (h : needResolve none targets = false) :
+    ∀ t ∈ targets, t.2.cur = t.2.prev := by
+  intro t ht
+  have := (List.any_eq_false.1 h) t ht
+  simp only [Bool.true_and] at this
+  have hc : t.2.changed = false := by simpa using this
+  have := hinv t ht
+  rw [hc] at this
+  simpa using this.symm
+
+/-- and any tracked change after the post-solve pass forces another trial -/
+theorem tracked_change_forces_resolve {V : Type} [DecidableEq V] (targets : List (String × Tracked V)) (t : String × Tracked V)
+    (ht : t ∈ targets) (hinv : t.2.changed = decide (t.2.cur ≠ t.2.prev)) (hne : t.2.cur ≠ t.2.prev) :
+    needResolve none targets = true := by
+  rw [needResolve, List.any_eq_true]
+  exact ⟨t, ht, by simp [hinv, hne]⟩
+
+/-- with an `attrs = ['status']` filter on that reference point a SETTING change made by a post-solve control does not force a
+re-solve: the step would be reported with the new setting and the old solution (what seeded change C02-8 did) -/
+theorem filtered_reference_point_misses_setting :
+    needResolve (some ["status"]) [("setting", ({ prev := (55 : Nat), cur := 40, changed := true } : Tracked Nat))] = false ∧
+    needResolve none [("setting", ({ prev := (55 : Nat), cur := 40, changed := true } : Tracked Nat))] = true := by decide
+
 /-- and an unregistered target keeps the stale row although the tracker reports the change -/
 theorem unregistered_target_stale :
     (trialRounds false (Tracked.start Status.active, Status.active) [[Status.opened]]).2 = Status.active ∧
